@@ -9,28 +9,8 @@
      positions are shifted gives the shifted tree (C15). *)
 From Param Require Import Param.
 From Coq Require Import List NArith Bool Arith Lia.
-From GoSyn Require Import Token Tok Ast Core.
+From GoSyn Require Import Token Tok Ast Core ParamGen.
 Import ListNotations.
-
-Parametricity Recursive bool.
-Parametricity Recursive nat.
-Parametricity Recursive list.
-Parametricity Recursive option.
-Parametricity Recursive positive.
-Parametricity Recursive N.
-Parametricity Translation Pos.eqb as Pos_eqb_R.
-Parametricity Translation N.eqb as N_eqb_R.
-Parametricity Translation Nat.eqb as Nat_eqb_R.
-Parametricity Translation Bool.eqb as Bool_eqb_R.
-Parametricity Translation Nat.leb as Nat_leb_R.
-Parametricity Translation Nat.ltb as Nat_ltb_R.
-Parametricity Recursive token.
-Parametricity Recursive node.
-Parametricity Recursive parse_file.
-Parametricity Recursive entry_expression.
-Parametricity Recursive entry_stmt.
-Parametricity Recursive parsers_at.
-Parametricity Recursive init_state.
 
 (* ------------------------------------------------------------ relations on data = equality *)
 
